@@ -1,8 +1,8 @@
 (* Property C20 — encrypted workbooks are reported as password protected, and only those.
    Only the property theorems (closed by [exact]), [Check] pins, non-vacuity examples and
-   [Print Assumptions].  Models: Password.v (xls, ods), PasswordCfb.v (xlsx / xlsb);
-   proofs: Password_proofs.v, PasswordCfb_proofs.v. *)
-From Calamine Require Import Prelude Password Password_proofs PasswordCfb PasswordCfb_proofs.
+   [Print Assumptions].  Models: Password.v (xls, ods), PasswordCfb.v (xlsx / xlsb, over the
+   compound-file model Cfb.v of property C13); proofs: Password_proofs.v, PasswordCfb_proofs.v. *)
+From Calamine Require Import Prelude Cfb Cfb_proofs PasswordCfb PasswordCfb_proofs Password Password_proofs.
 Open Scope N_scope.
 
 (* ------------------------------------------------------------------ xls *)
@@ -68,9 +68,46 @@ Theorem C20_no_false_positive_xls_real :
 Proof. exact no_filepass_no_password_real. Qed.
 
 (* ------------------------------------------------------------------ xlsx / xlsb *)
+(* THROUGH THE BYTES, ANY LAYOUT: for every container with an object named EncryptedPackage (any
+   content and size, any other streams and storages) and every valid physical layout of it, the
+   model of check_for_password_protected run on the written file answers Password, and
+   Xlsx::new / Xlsb::new return it without opening the zip.  (Composition with
+   C13_written_names_listed; fuel: 1 + number of DIFAT sectors, or anything above.) *)
+Theorem C20_encrypted_ooxml_is_password_any_layout :
+  forall (c : container) (l : layout) (fuel : nat) (zip : outcome unit),
+    valid_layout c l -> (fuel_for l <= fuel)%nat ->
+    In ENCRYPTED_PACKAGE (all_names c) ->
+    ooxml_check_bytes fuel (cfb_write c l) = Err PasswordCfb.E_PASSWORD /\
+    ooxml_new_bytes fuel (cfb_write c l) zip = Err PasswordCfb.E_PASSWORD.
+Proof. exact encrypted_ooxml_is_password_any_layout. Qed.
+
+(* the usual case: a stream of that name, any ciphertext *)
+Theorem C20_encrypted_stream_is_password_any_layout :
+  forall (c : container) (l : layout) (fuel : nat) (zip : outcome unit) (bytes : list N),
+    valid_layout c l -> (fuel_for l <= fuel)%nat ->
+    In (ENCRYPTED_PACKAGE, bytes) (c_streams c) ->
+    ooxml_check_bytes fuel (cfb_write c l) = Err PasswordCfb.E_PASSWORD /\
+    ooxml_new_bytes fuel (cfb_write c l) zip = Err PasswordCfb.E_PASSWORD.
+Proof. exact encrypted_stream_is_password_any_layout. Qed.
+
+(* converse through the bytes: a compound file written from a container WITHOUT an object of that
+   name, in every valid layout, passes the check (the reader goes on to the zip) *)
+Theorem C20_no_false_positive_ooxml_any_layout :
+  forall (c : container) (l : layout) (fuel : nat) (zip : outcome unit),
+    valid_layout c l -> (fuel_for l <= fuel)%nat ->
+    ~ In ENCRYPTED_PACKAGE (all_names c) ->
+    ooxml_check_bytes fuel (cfb_write c l) = Ok tt /\
+    ooxml_new_bytes fuel (cfb_write c l) zip = zip.
+Proof. exact no_encrypted_package_any_layout. Qed.
+
+(* the directory scan of PasswordCfb.v IS Cfb.has_directory *)
+Theorem C20_has_directory_is_cfb : forall (cf : cfb) (name : list N),
+  Cfb.has_directory cf name = PasswordCfb.has_directory (directories cf) name.
+Proof. exact has_directory_is_cfb. Qed.
+
 (* over a parsed directory: an entry named EncryptedPackage at any index among any entries *)
 Theorem C20_encrypted_ooxml_is_password :
-  forall (before : list dentry) (d : dentry) (after_ : list dentry) (zip : outcome unit),
+  forall (before : list dirent) (d : dirent) (after_ : list dirent) (zip : outcome unit),
     d_name d = ENCRYPTED_PACKAGE ->
     ooxml_check (Ok (before ++ d :: after_)) = Err PasswordCfb.E_PASSWORD /\
     ooxml_new (Ok (before ++ d :: after_)) zip = Err PasswordCfb.E_PASSWORD.
@@ -78,7 +115,7 @@ Proof. exact encrypted_package_is_password. Qed.
 
 (* over the bytes of the directory chain: whole 128-byte entries, the EncryptedPackage entry as a
    writer lays it out (any bytes behind the name terminator, any other fields, any start and
-   size — mini stream or regular, empty or large), at any index, both sector sizes *)
+   size), at any index, every OTHER entry arbitrary bytes, both sector sizes *)
 Theorem C20_encrypted_ooxml_is_password_bytes :
   forall (before after_ : list (list N)) (pad mid : list N) (start size ss : N)
          (zip : outcome unit),
@@ -93,25 +130,67 @@ Theorem C20_encrypted_ooxml_is_password_bytes :
 Proof. exact encrypted_ooxml_is_password. Qed.
 
 (* converse, byte level: a file that starts with the zip local-header signature is rejected by
-   Header::from_reader, so — whatever the rest of Cfb::new would do — the check passes and the
-   reader opens the zip *)
+   Cfb::new (Header::from_reader: Io under 512 bytes, Ole otherwise), so the check passes and the
+   reader opens the zip — for any fuel *)
 Theorem C20_no_false_positive_ooxml :
-  forall (load : header -> list N -> outcome (list N))
-         (after : header -> list dentry -> list N -> outcome unit)
-         (f : list N) (zip : outcome unit),
+  forall (f : list N) (fuel : nat) (zip : outcome unit),
     firstn 4 f = ZIP_LOCAL ->
-    (header_from_reader f = Err E_IO \/ header_from_reader f = Err E_OLE) /\
-    ooxml_check (cfb_dirs load after f) = Ok tt /\
-    ooxml_new (cfb_dirs load after f) zip = zip.
+    (cfb_new fuel f = Err ERR_IO \/ cfb_new fuel f = Err ERR_OLE) /\
+    ooxml_check_bytes fuel f = Ok tt /\
+    ooxml_new_bytes fuel f zip = zip.
 Proof. exact zip_no_false_positive. Qed.
 
-(* converse over a parsed directory: a compound file without an entry of that name (an xls file
-   handed to the xlsx reader, say) is not reported *)
+(* converse over a parsed directory *)
 Theorem C20_no_false_positive_ooxml_dirs :
-  forall cfb : outcome (list dentry),
+  forall cfb : outcome (list dirent),
     (forall dirs, cfb = Ok dirs -> forall d, In d dirs -> d_name d <> ENCRYPTED_PACKAGE) ->
     ooxml_check cfb <> Err PasswordCfb.E_PASSWORD.
 Proof. exact no_encrypted_package_not_password. Qed.
+
+(* ------------------------------------------------------------------ totality (for C06) *)
+(* no input whatsoever — no well-formedness hypothesis — makes the modelled scans panic, and the
+   fuel the models give themselves is never exhausted *)
+Theorem C20_no_panic_ooxml_check : forall (fuel : nat) (file : list N),
+  ooxml_check_bytes fuel file <> Panic /\
+  (Cfb.lenN file / 512 < N.of_nat fuel -> ooxml_check_bytes fuel file <> OutOfFuel).
+Proof. exact ooxml_check_bytes_total. Qed.
+
+Theorem C20_no_panic_ooxml_check_file : forall file : list N,
+  ooxml_check_bytes (fuel_of_file file) file <> Panic /\
+  ooxml_check_bytes (fuel_of_file file) file <> OutOfFuel.
+Proof. exact ooxml_check_bytes_no_panic. Qed.
+
+Theorem C20_no_panic_parse_dirs : forall (chain : list N) (ss : N),
+  parse_dirs chain ss <> Panic /\ parse_dirs chain ss <> OutOfFuel.
+Proof. exact parse_dirs_total. Qed.
+
+(* RecordIter::next on any bytes; every record consumes at least its header *)
+Theorem C20_no_panic_record_iter : forall (s : list N) (o : outcome (frec * list N)),
+  next_record s = Some o ->
+  o <> Panic /\ o <> OutOfFuel /\
+  forall r rest, o = Ok (r, rest) -> (length rest + 4 <= length s)%nat.
+Proof. exact next_record_total. Qed.
+
+(* the globals loop on any bytes, for any total [interp] … *)
+Theorem C20_no_panic_xls_globals :
+  forall interp : frec -> outcome unit,
+    (forall r, interp r <> Panic /\ interp r <> OutOfFuel) ->
+    forall s : list N, xls_globals interp s <> Panic /\ xls_globals interp s <> OutOfFuel.
+Proof. exact xls_globals_total. Qed.
+
+(* … in particular for the arms modelled in Password.v (since the hardening of /repo the
+   short-record cases of CodePage, Date1904 and BOF are errors) *)
+Theorem C20_no_panic_xls_globals_real : forall s : list N,
+  xls_globals interp_real s <> Panic /\ xls_globals interp_real s <> OutOfFuel.
+Proof. exact xls_globals_real_total. Qed.
+
+Theorem C20_no_panic_manifest_scan : forall evs : list mevent,
+  manifest_scan evs <> Panic /\ manifest_scan evs <> OutOfFuel.
+Proof. exact manifest_scan_total. Qed.
+
+Theorem C20_no_panic_ods_new : forall (mt : option (list N)) (mf : option (list mevent)),
+  ods_new mt mf <> Panic /\ ods_new mt mf <> OutOfFuel.
+Proof. exact ods_new_total. Qed.
 
 (* ------------------------------------------------------------------ ods *)
 (* event level: an encryption-data start tag anywhere after a file-entry start tag, each under
@@ -148,8 +227,14 @@ Check C20_filepass_is_password :
     body_ok body = true -> forallb raw_ok post = true ->
     xls_globals interp (items_bytes pre ++ rec_bytes FILEPASS body ++ raw_bytes post)
     = Err Password.E_PASSWORD.
+Check C20_encrypted_ooxml_is_password_any_layout :
+  forall (c : container) (l : layout) (fuel : nat) (zip : outcome unit),
+    valid_layout c l -> (fuel_for l <= fuel)%nat ->
+    In ENCRYPTED_PACKAGE (all_names c) ->
+    ooxml_check_bytes fuel (cfb_write c l) = Err PasswordCfb.E_PASSWORD /\
+    ooxml_new_bytes fuel (cfb_write c l) zip = Err PasswordCfb.E_PASSWORD.
 Check C20_encrypted_ooxml_is_password :
-  forall (before : list dentry) (d : dentry) (after_ : list dentry) (zip : outcome unit),
+  forall (before : list dirent) (d : dirent) (after_ : list dirent) (zip : outcome unit),
     d_name d = ENCRYPTED_PACKAGE ->
     ooxml_check (Ok (before ++ d :: after_)) = Err PasswordCfb.E_PASSWORD /\
     ooxml_new (Ok (before ++ d :: after_)) zip = Err PasswordCfb.E_PASSWORD.
@@ -203,9 +288,57 @@ Proof. eexists. split; [vm_compute; reflexivity|]. split; reflexivity. Qed.
 
 Example C20_no_false_positive_ooxml_nonvacuous :
   firstn 4 (ZIP_LOCAL ++ repeat 0 600) = ZIP_LOCAL /\
-  header_from_reader (ZIP_LOCAL ++ repeat 0 600) = Err E_OLE /\
-  header_from_reader (ZIP_LOCAL ++ repeat 0 100) = Err E_IO.
-Proof. repeat split; reflexivity. Qed.
+  cfb_new 1 (ZIP_LOCAL ++ repeat 0 600) = Err ERR_OLE /\
+  cfb_new 1 (ZIP_LOCAL ++ repeat 0 100) = Err ERR_IO.
+Proof. repeat split; vm_compute; reflexivity. Qed.
+
+(* an encrypted package as Office writes it: \006DataSpaces storage, EncryptionInfo in the mini
+   stream, EncryptedPackage of 5000 bytes in regular sectors; 512-byte sectors with everything
+   shuffled (FAT in sector 7, directory in 3, mini FAT in 12, the package over ten scattered
+   sectors, a free sector, padding 0xAA), and 4096-byte sectors laid out in order *)
+Definition ex_info : list N := map (fun i => N.of_nat i mod 251) (List.seq 0 100).
+Definition ex_pkg : list N := map (fun i => (N.of_nat i * 7 + 3) mod 256) (List.seq 0 5000).
+Definition ENCRYPTION_INFO : list N := [69;110;99;114;121;112;116;105;111;110;73;110;102;111].
+Definition ex_c (ss : N) : container :=
+  {| c_ss := ss; c_storages := [[6;68;97;116;97;83;112;97;99;101;115]];
+     c_streams := [(ENCRYPTION_INFO, ex_info); (ENCRYPTED_PACKAGE, ex_pkg)] |}.
+Definition ex_l : layout :=
+  {| l_nsect := 15; l_fat_ids := [7]; l_difat_ids := []; l_dir_ids := [3]; l_minifat_ids := [12];
+     l_root_ids := [0]; l_nmini := 3;
+     l_chains := [[2; 0]; [14; 2; 9; 1; 13; 4; 11; 5; 10; 6]];
+     l_slots := [2; 3; 1]; l_pad := 170; l_size_hi := 4294967295; l_empty_start := 0 |}.
+Definition ex_l4 : layout :=
+  {| l_nsect := 6; l_fat_ids := [0]; l_difat_ids := []; l_dir_ids := [1]; l_minifat_ids := [2];
+     l_root_ids := [3]; l_nmini := 2;
+     l_chains := [[0; 1]; [4; 5]];
+     l_slots := [1; 2; 3]; l_pad := 0; l_size_hi := 0; l_empty_start := ENDOFCHAIN |}.
+(* the same container without the package *)
+Definition ex_plain (ss : N) : container :=
+  {| c_ss := ss; c_storages := [[6;68;97;116;97;83;112;97;99;101;115]];
+     c_streams := [(ENCRYPTION_INFO, ex_info); ([87;111;114;107;98;111;111;107], ex_pkg)] |}.
+
+Example C20_encrypted_ooxml_is_password_any_layout_nonvacuous :
+  valid_layout (ex_c 512) ex_l /\ valid_layout (ex_c 4096) ex_l4 /\
+  In ENCRYPTED_PACKAGE (all_names (ex_c 512)) /\
+  ooxml_check_bytes (fuel_for ex_l) (cfb_write (ex_c 512) ex_l) = Err PasswordCfb.E_PASSWORD /\
+  ooxml_check_bytes (fuel_for ex_l4) (cfb_write (ex_c 4096) ex_l4) = Err PasswordCfb.E_PASSWORD.
+Proof. repeat split; vm_compute; try reflexivity. right; right; left; reflexivity. Qed.
+
+Example C20_no_false_positive_ooxml_any_layout_nonvacuous :
+  valid_layout (ex_plain 512) ex_l /\ ~ In ENCRYPTED_PACKAGE (all_names (ex_plain 512)) /\
+  ooxml_check_bytes (fuel_for ex_l) (cfb_write (ex_plain 512) ex_l) = Ok tt.
+Proof.
+  split; [vm_compute; reflexivity|]. split; [|vm_compute; reflexivity].
+  intros H. vm_compute in H. repeat (destruct H as [H|H]; [discriminate|]). exact H.
+Qed.
+
+(* totality theorems carry no hypothesis; an input on which the old code panicked *)
+Example C20_no_panic_xls_globals_real_nonvacuous :
+  xls_globals interp_real [66; 0; 1; 0; 7] = Err Password.E_OTHER /\      (* CodePage of 1 byte *)
+  xls_globals interp_real [9; 8; 0; 0] = Err Password.E_OTHER /\          (* BOF of 0 bytes *)
+  xls_globals interp_real [47; 0; 0; 0] = Err Password.E_PASSWORD /\      (* empty FILEPASS *)
+  parse_dirs (repeat 0 130) 512 = parse_dirs (repeat 0 128) 512.          (* chunks_exact *)
+Proof. repeat split; vm_compute; reflexivity. Qed.
 
 (* manifest:file-entry / m:encryption-data, then an unencrypted entry without prefix *)
 Definition ex_manifest : list entry :=
@@ -241,6 +374,10 @@ Print Assumptions C20_filepass_is_password_workbook.
 Print Assumptions C20_filepass_is_password_book.
 Print Assumptions C20_no_false_positive_xls.
 Print Assumptions C20_no_false_positive_xls_real.
+Print Assumptions C20_encrypted_ooxml_is_password_any_layout.
+Print Assumptions C20_encrypted_stream_is_password_any_layout.
+Print Assumptions C20_no_false_positive_ooxml_any_layout.
+Print Assumptions C20_has_directory_is_cfb.
 Print Assumptions C20_encrypted_ooxml_is_password.
 Print Assumptions C20_encrypted_ooxml_is_password_bytes.
 Print Assumptions C20_no_false_positive_ooxml.
@@ -248,3 +385,11 @@ Print Assumptions C20_no_false_positive_ooxml_dirs.
 Print Assumptions C20_ods_encryption_data_is_password.
 Print Assumptions C20_ods_manifest_spec.
 Print Assumptions C20_no_false_positive_ods.
+Print Assumptions C20_no_panic_ooxml_check.
+Print Assumptions C20_no_panic_ooxml_check_file.
+Print Assumptions C20_no_panic_parse_dirs.
+Print Assumptions C20_no_panic_record_iter.
+Print Assumptions C20_no_panic_xls_globals.
+Print Assumptions C20_no_panic_xls_globals_real.
+Print Assumptions C20_no_panic_manifest_scan.
+Print Assumptions C20_no_panic_ods_new.
